@@ -450,6 +450,48 @@ func GenProgram(r *rand.Rand, c *Case) {
 	}
 }
 
+// GenVerbStory generates a history about method roots: every method of the case gets one or two routes (one commit
+// each), then a write transaction interleaves writes under one verb with operations that remove or add the root of
+// ANOTHER verb (deleting its last route, truncating it, registering a first route for a verb that has none), ends
+// (aborted half of the time), and a few random operations follow.
+func GenVerbStory(r *rand.Rand, c *Case) {
+	count := map[string][]string{}
+	for _, m := range c.Methods {
+		for k := 0; k < 1+r.IntN(2); k++ {
+			p := c.Pool[r.IntN(len(c.Pool))]
+			c.Ops = append(c.Ops, Op{Kind: "handle", Method: m, Pattern: p})
+			count[m] = append(count[m], p)
+		}
+	}
+	c.Ops = append(c.Ops, Op{Kind: "begin"})
+	for k := 0; k < 3+r.IntN(4); k++ {
+		m := c.Methods[r.IntN(len(c.Methods))]
+		switch r.IntN(5) {
+		case 0, 1:
+			c.Ops = append(c.Ops, Op{Kind: "handle", Method: m, Pattern: c.Pool[r.IntN(len(c.Pool))]})
+		case 2:
+			// remove the verb's root: delete all its routes
+			for _, p := range count[m] {
+				c.Ops = append(c.Ops, Op{Kind: "delete", Method: m, Pattern: p})
+			}
+			count[m] = nil
+		case 3:
+			c.Ops = append(c.Ops, Op{Kind: "truncate", Methods: []string{m}})
+			count[m] = nil
+		default:
+			if len(count[m]) > 0 {
+				c.Ops = append(c.Ops, Op{Kind: "update", Method: m, Pattern: count[m][0]})
+			}
+		}
+	}
+	if r.IntN(2) == 0 {
+		c.Ops = append(c.Ops, Op{Kind: "abort"})
+	} else {
+		c.Ops = append(c.Ops, Op{Kind: "commit"})
+	}
+	GenOps(r, c, len(c.Ops)+r.IntN(10), 1, false)
+}
+
 // ErrClass maps a fox error to the model's vocabulary.
 func ErrClass(err error) string {
 	switch {
